@@ -116,7 +116,7 @@ META["C18"] = {
 
 META["C17"] = {
     "text": "Bounded symbolic model checking of (a) the history layer: rows written by the real InsertTransactionHistoryTxBatch / InsertFCTBurn / InsertDeveloperRewardCoinbase are returned by the real historyQueryBuilder + historySelectHelper + turnRowsIntoHistoryTransactions (3-table joins, IN filters, ORDER BY, LIMIT/OFFSET interpreted from the repo's SQL text) exactly: count == number of matching actions, each once, recorded fields, history order, for every query field and option combination; (b) status truthfulness inside every block-application harness: executed == height iff effects applied, negative iff rejected with no effect, pending iff held, recorded amounts == balance deltas (transfers, conversions, PEG yields, coinbases, developer and staking payouts). Found D19 (txid count query), repaired by a fix: commit.",
-    "note": "first page only (page size constant 50: not-applicable sub-claim); json of the outputs column stubbed as a round trip",
+    "note": "paging: 53/103 recorded actions walked page by page and read at every offset (by height and by address, both orders); filter combinations on the first page only; json of the outputs column stubbed as a round trip",
     "design_ref": "DESIGN.md §7 C17",
 }
 
